@@ -54,7 +54,12 @@ fn c12(tc: &Toolchain, tier: &str, tag: &str, seed: u64, thorough: bool, root: &
             code = 2;
         }
     }
-    let accepted: Vec<&(String, String)> = rs.accepted_negative.iter().chain(re.accepted_negative.iter()).collect();
+    // findings listed as `known:` in KNOWN_FINDINGS.txt are excluded by signature (class prefix) and
+    // reported by ./check as KNOWN-FINDING lines; anything else that is accepted is a violation
+    let known = known_signatures(root, "C12");
+    let all_accepted: Vec<&(String, String)> = rs.accepted_negative.iter().chain(re.accepted_negative.iter()).collect();
+    let known_hits: Vec<String> = all_accepted.iter().filter(|(c, _)| known.iter().any(|k| c.starts_with(k.as_str()))).map(|(c, _)| c.clone()).collect();
+    let accepted: Vec<&(String, String)> = all_accepted.iter().filter(|(c, _)| !known.iter().any(|k| c.starts_with(k.as_str()))).copied().collect();
     if let Some((class, prog)) = accepted.first() {
         violations = accepted.len() as u32;
         let path = format!("{root}/failures/C12-accepted-{:016x}.json", hash(prog));
@@ -88,12 +93,27 @@ fn c12(tc: &Toolchain, tier: &str, tag: &str, seed: u64, thorough: bool, root: &
         "escape_rejected": re.rejected,
         "diagnostic_families": fams,
         "classes_covered": classes.len(),
+        "known_findings_reproduced": known_hits,
         "build": tag,
     });
     let assumptions = ["rustc (the toolchain the repository builds with) is the accept/reject oracle", "the probe corpus samples 'no safe program': it settles variance and auto traits structurally and defeats each known escape route per entry point, nothing more"];
     crate::evidence::write_part(root, "C12", tier, seed, tag, cov, &assumptions, wall, violations);
     println!("C12 {tier}: {} structural + {} escape probe pairs, {} rejected as required, {:.1}s, exit {code}", rs.probes, re.probes, rs.rejected + re.rejected, wall);
     code
+}
+
+/// Signatures (`sig=<class prefix>`) of the `known:` entries of KNOWN_FINDINGS.txt for a property.
+fn known_signatures(root: &str, prop: &str) -> Vec<String> {
+    let text = std::fs::read_to_string(format!("{root}/KNOWN_FINDINGS.txt")).unwrap_or_default();
+    let mut v = Vec::new();
+    for line in text.lines() {
+        if let Some(rest) = line.strip_prefix(&format!("known: property={prop} ")) {
+            if let Some(sig) = rest.split_whitespace().find_map(|w| w.strip_prefix("sig=")) {
+                v.push(sig.to_string());
+            }
+        }
+    }
+    v
 }
 
 fn hash(s: &str) -> u64 {
